@@ -678,3 +678,59 @@ def r11(R):
               'data)')
     for v in vs:
         R.violation(v.node, v.message, g, v.path)
+
+
+# ------------------------------------------------------------------ C06.R12
+@rule('C06.R12', 'what an undo-log entry says itself -- above all the id '
+      'that undo() is given -- is not replaced by the transaction\'s '
+      'extension: the extension is merged UNDER the entry\'s own fields',
+      min_instances=1)
+def r12(R):
+    us = R.prog.cls('ZODB.FileStorage.FileStorage.UndoSearch')
+    f = R.method(us, '_readnext')
+    g, b, F = R.cfg(f, us, max_depth=0)
+    # locals holding the entry (a dict display with the key 'id') and the
+    # unpickled extension
+    entries, exts = set(), set()
+    for s in walk_local(f.node):
+        if isinstance(s, ast.Assign) and isinstance(s.targets[0], ast.Name):
+            if isinstance(s.value, ast.Dict) and any(
+                    isinstance(k, ast.Constant) and k.value == 'id'
+                    for k in s.value.keys):
+                entries.add(s.targets[0].id)
+            if isinstance(s.value, ast.Call) and dotted(s.value.func) and \
+                    dotted(s.value.func)[-1] == 'loads':
+                exts.add(s.targets[0].id)
+    R.require(entries, 'UndoSearch._readnext no longer builds the entry')
+    R.instance('UndoSearch._readnext', entry=sorted(entries),
+               extension=sorted(exts))
+    for c in walk_local(f.node):
+        if isinstance(c, ast.Call) and isinstance(c.func, ast.Attribute) and \
+                c.func.attr == 'update' and isinstance(
+                    c.func.value, ast.Name) and c.func.value.id in entries \
+                and c.args and isinstance(c.args[0], ast.Name) and \
+                c.args[0].id in exts:
+            R.violation(
+                (f.module.relpath, f.qualname,
+                 ' '.join(ast.unparse(c).split()), c.lineno),
+                'the undo-log entry is updated WITH the transaction\'s '
+                'extension: an extension that has the key `id` (or `time`, '
+                '`user_name`, `description`, `size`) replaces what the '
+                'storage says; the id taken from the log then names no '
+                'transaction, or another one, when it is given to undo()',
+                key='extension overrides the entry')
+        # subscript stores from the extension over the entry's keys
+    for s in walk_local(f.node):
+        if isinstance(s, ast.For) and isinstance(s.iter, ast.Name) and \
+                s.iter.id in exts:
+            for x in ast.walk(s):
+                if isinstance(x, ast.Assign) and isinstance(
+                        x.targets[0], ast.Subscript) and isinstance(
+                            x.targets[0].value, ast.Name) and \
+                        x.targets[0].value.id in entries:
+                    R.violation(
+                        (f.module.relpath, f.qualname,
+                         ' '.join(ast.unparse(x).split()), x.lineno),
+                        'the undo-log entry\'s keys are overwritten from '
+                        'the extension',
+                        key='extension overrides the entry')
